@@ -35,7 +35,7 @@ ASSUMPTIONS = [
 ]
 SHARDS = {'quick': 1, 'thorough': 4}
 TIMEOUT = {'quick': 900, 'thorough': 1800}
-FLOORS = {'admin_requests_by_lookalike_usernames_checked': 400, 'billing_listings_by_lookalike_usernames_checked': 60, 'container_log_requests_checked': 1500, 'container_log_requests_that_reached_a_worker_or_the_store': 16, 'denials_checked': 600, 'routes_enumerated': 60, 'allowed_mutations_observed': 10, 'ownership_denials_checked': 20,
+FLOORS = {'crafted_batch_id_requests_checked': 800, 'crafted_batch_ids': 20, 'admin_requests_by_lookalike_usernames_checked': 400, 'billing_listings_by_lookalike_usernames_checked': 60, 'container_log_requests_checked': 1500, 'container_log_requests_that_reached_a_worker_or_the_store': 16, 'denials_checked': 600, 'routes_enumerated': 60, 'allowed_mutations_observed': 10, 'ownership_denials_checked': 20,
           'listing_responses_scanned': 150, 'records_in_listings_checked': 300, 'listings_with_foreign_jobs_in_matching_state': 40, 'revoked_member_requests_checked': 60}
 
 # search terms for the listing routes: v1 (bare words, multi-state words, negations) and v2 (state / comparison expressions)
@@ -325,6 +325,85 @@ async def names_phase(ctx, w, fe, base_state, routes, body_for):
                             ctx.violation('response-leaks-billing-project-of-non-member', f'GET {url} answered the non-developer user {name!r}, member of no billing project, with {leaked}', dict(case, leaked=leaked))
 
 
+async def crafted_id_phase(ctx, w, fe, base_state, batches, routes, body_for, make_batch):
+    """The `{batch_id}` path segment is read by more than one parser (Python `int()`, the SQL comparison with a BIGINT column, the
+    router's pattern).  Whatever string the caller puts there, a request may only touch / show batches the caller may touch: alice
+    (owner of batch `own`) sends ids that mean her batch to one parser and another tenant's batch (same digits as prefix) to
+    another.  Oracle: no row belonging to a batch of a billing project alice is not a member of changes, and no record of such a
+    batch appears in the answer."""
+    import json as _json
+
+    w.engine.load_state(base_state)
+    own = batches['own']
+    # bob's batches in bp-b (alice is not a member) until ids own*10 .. own*10+2 exist, each with a fully staged open update
+    victims = []
+    k = 0
+    while True:
+        k += 1
+        bid, uid = await make_batch('bob', 'bp-b', f't-victim-{k}', commit=False)
+        if own * 10 <= bid <= own * 10 + 2:
+            victims.append(bid)
+        if bid >= own * 10 + 2 or k > 40:
+            break
+    state = w.engine.save_state()
+    foreign = set(victims) | {batches['foreign']}
+    T = w.engine.tables
+    foreign |= {r['id'] for r in T['batches'].rows if r['billing_project'] == 'bp-b'}
+
+    def rows_of_foreign(snap):
+        out = {}
+        for name, rows in snap.items():
+            keep = []
+            for r in rows:
+                d = dict(r)
+                b = d.get('batch_id', d.get('id') if name in ('batches', 'job_groups_cancelled', 'job_groups_n_jobs_in_complete_states') else None)
+                if b in foreign:
+                    keep.append(r)
+            if keep:
+                out[name] = keep
+        return out
+    crafted = []
+    for v in victims:
+        sv = str(v)
+        crafted += [sv[:len(str(own))] + '_' + sv[len(str(own)):], '0' + sv[:len(str(own))] + '_' + sv[len(str(own)):], sv[:len(str(own))] + '__' + sv[len(str(own)):],
+                    '%20' + sv, sv + '%20', '%2B' + sv, '0' + sv, sv + '.0', sv + 'e0', str(own) + 'e1', sv + '%00', sv + '%0A', str(own) + '%20' + sv[len(str(own)):], '٠' + sv]
+    crafted += [str(own) + '_', '_' + str(own), str(own) + 'x', '0x' + str(own), str(own) + '.9', '-' + str(own), str(own) + '%2F..%2F' + str(victims[0] if victims else 0)]
+    ctx.count('crafted_batch_ids', len(set(crafted)))
+    for method, path in routes:
+        if '{batch_id}' not in path:
+            continue
+        for cid in sorted(set(crafted)):
+            w.engine.load_state(state)
+            url = (path.replace('{batch_id}', cid).replace('{update_id}', '1').replace('{job_group_id}', '0').replace('{job_id}', '1')
+                   .replace('{container}', 'main').replace('{filename}', 'x.js'))
+            before = rows_of_foreign(w.engine.snapshot())
+            try:
+                resp = await fe.request(method, url, token='tok-owner', json=body_for(method, path, 0, 1))
+                status, text = resp.status, resp.text_ or ''
+            except Unsupported as e:
+                raise Inconclusive('minimysql unsupported: ' + str(e))
+            except Exception as e:
+                status, text = 'exc:' + type(e).__name__, ''
+            after = rows_of_foreign(w.engine.snapshot())
+            ctx.count('crafted_batch_id_requests_checked')
+            ctx.seen('crafted_batch_id_status', status)
+            case = {'method': method, 'route': path, 'batch_id_segment': cid, 'status': status}
+            ctx.case(sample=case, key=('crafted-id', method, path, cid), nontrivial=True)
+            if before != after:
+                changed = sorted(n for n in set(before) | set(after) if before.get(n) != after.get(n))
+                ctx.violation('state-changed-on-batch-of-a-project-the-caller-is-not-in/crafted-batch-id',
+                              f'{method} {path} with batch id segment {cid!r} by alice changed rows of another tenant\'s batch (tables {changed}; status {status})', dict(case, tables=changed))
+            if status == 200 and text.lstrip()[:1] in '[{':
+                try:
+                    refs = []
+                    referenced_batches(_json.loads(text), refs)
+                except ValueError:
+                    refs = []
+                leaked = sorted({rb for rb, _ in refs if rb in foreign})
+                if leaked:
+                    ctx.violation('response-leaks-record-of-unreadable-batch/crafted-batch-id', f'{method} {path} with batch id segment {cid!r} answered alice with records of batch(es) {leaked}', dict(case, leaked=leaked))
+
+
 async def revocation_phase(ctx, w, fe, base_state, own, routes):
     """Membership is judged at the time of the request: bob (member of bp-a) touches alice's batch, a developer removes bob
     from bp-a through the real administration route, and from then on every batch-scoped request of bob must be denied and
@@ -398,13 +477,15 @@ def run(ctx):
             a.add('tok-' + k, v)
         from batch.front_end.validate import validate_and_clean_jobs
 
-        async def make_batch(user, bp, token):
+        async def make_batch(user, bp, token, commit=True):
             u = userdata(user)
             bid = await w.fe._create_batch({'billing_project': bp, 'token': token, 'n_jobs': 1}, u, w.db)
             uid, _, _ = await w.fe._create_batch_update(bid, token, 1, 0, user, w.db)
             jobs = [job_spec(1)]
             validate_and_clean_jobs(jobs)
             await w.fe._create_jobs(u, jobs, bid, uid, w.fe_app)
+            if not commit:
+                return bid, uid
             await w.fe._commit_update(w.fe_app, bid, uid, user, w.db)
             uid2, _, _ = await w.fe._create_batch_update(bid, token + '-2', 2, 1, user, w.db)
             return bid, uid2
@@ -525,6 +606,7 @@ def run(ctx):
         await listing_phase(ctx, w, fe, base_state, {'own': own, 'shared': shared, 'foreign': foreign, 'deleted': deleted}, routes)
         await revocation_phase(ctx, w, fe, base_state, own, routes)
         await names_phase(ctx, w, fe, base_state, routes, body_for)
+        await crafted_id_phase(ctx, w, fe, base_state, {'own': own, 'shared': shared, 'foreign': foreign, 'deleted': deleted}, routes, body_for, make_batch)
         await log_phase(ctx, w, fz, fe, base_state, {'own': own, 'shared': shared, 'foreign': foreign, 'deleted': deleted})
         await w.shutdown()
     run_virtual(main, max_steps=20_000_000)
